@@ -303,7 +303,7 @@ META = {
                 "still registered, Dels by owners and by replaced controls) GetByID designates exactly the control that "
                 "currently owns the run id, and the user RegisterVisitorConn checks is that control's login user. A refused "
                 "NAT-hole request, and any flood of them, leaves the sessions map as it was. The NAT-hole request branch checks the key but not the allow list: witness proved and "
-                "reproduced on the real code (known finding), full theorem proved for the repaired branch "
+                "reproduced on the real code on the tree as pinned; repaired by b3dd5ae, full theorem proved for the repaired branch "
                 "(hooks/C08-fix-nathole-allowusers.patch, switch Visitor.natFixed). "
                 "Client side (xtcp): for every history of the xtcp visitor's goroutines (connections arriving, openTunnel's "
                 "ticker, the fallback timeout, its 20 s limit, makeNatHole finishing with any outcome, sessions breaking, "
